@@ -31,7 +31,7 @@ fn q_sel(d: Dialect, s: &mut SelectStatement) -> String {
     s.build_collect_any(qb(d), &mut out)
 }
 
-pub const POSITIONS: [&str; 63] = [
+pub const POSITIONS: [&str; 64] = [
     "select.from.table",
     "select.from.schema_of_schema.table",
     "select.from.table_of_schema.table",
@@ -95,6 +95,7 @@ pub const POSITIONS: [&str; 63] = [
     "pg.as_enum_type",
     "pg.as_enum_array_type",
     "func.cast_as_quoted_type",
+    "table.alter.modify_column",
 ];
 
 /// Render with identifier `v` in position `p`. None = not applicable for this backend.
@@ -359,6 +360,15 @@ fn render(p: &str, d: Dialect, v: &str) -> Option<String> {
             // the type name is quoted with the quote handed to the function: the backend's own
             let q = qb(d).quote();
             q_sel(d, Query::select().expr(Func::cast_as_quoted(Expr::val("x"), a(v), q)))
+        }
+        "table.alter.modify_column" => {
+            if lite {
+                return None;
+            }
+            // every sub-clause the backends derive from the column's specifications names the column again
+            let mut c = ColumnDef::new(a(v));
+            c.integer().not_null().default(1).unique_key();
+            Table::alter().table(a("t")).modify_column(c).build_any(s)
         }
         _ => unreachable!("unknown position {p}"),
     })
